@@ -30,15 +30,25 @@ Record(res, s, t) ==
 
 \* the execution is over as soon as no task is able to progress: a merely parked task may wake
 \* spuriously only while the execution is still alive
+\* Steps without any effect that another task could observe (the closure returning, entering / leaving a block_on
+\* section or a scope, dropping a JoinHandle) are not places where the runtime offers a choice, and none is needed:
+\* the task that ran last takes them at once.
+Markers == {"ret", "bo_begin", "bo_end", "scope_begin", "detach"}
+Urgent(s) == IF s.cur >= 0 /\ s.cur \in Live(s) /\ Ph(s, s.cur) = "ready"
+                /\ \/ NextOp(s, s.cur).k \in Markers /\ CanComplete(s, s.cur)
+                   \* the result is published and the task finishes in the step in which its closure / future returns
+                   \* (thread-local destructors, which may contain scheduling points, come in between and are steps of their own)
+                   \/ NextOp(s, s.cur).k = "exit" /\ CanBlock(s, s.cur)
+             THEN {s.cur} ELSE {}
 Next ==
   /\ S.panicked = ""
   /\ ~Ends(S)
-  /\ \E t \in Live(S) :
+  /\ \E t \in (IF Urgent(S) # {} THEN Urgent(S) ELSE Live(S)) :
        \/ /\ CanComplete(S, t)
           /\ \E v \in (IF NextOp(S, t).k = "rand" THEN 0..3 ELSE {S.rv}) :
-                LET s0 == [S EXCEPT !.rv = v] IN S' = Record(Complete(s0, t), s0, t)
+                LET s0 == [S EXCEPT !.rv = v] IN S' = [Record(Complete(s0, t), s0, t) EXCEPT !.cur = t]
           /\ hist' = Append(hist, <<S.ix[t+1], S.pc[t+1], "C">>)
-       \/ CanBlock(S, t) /\ S' = Block(S, t) /\ hist' = Append(hist, <<S.ix[t+1], S.pc[t+1], "B">>)
+       \/ CanBlock(S, t) /\ S' = [Block(S, t) EXCEPT !.cur = t] /\ hist' = Append(hist, <<S.ix[t+1], S.pc[t+1], "B">>)
        \/ PanicKind(S, t) # "" /\ S' = [S EXCEPT !.panicked = PanicKind(S, t)] /\ hist' = Append(hist, <<S.ix[t+1], S.pc[t+1], "P">>)
 
 Spec == Init /\ [][Next]_vars
